@@ -56,4 +56,35 @@ CLAIMED['C06'] = (
     'DESIGN.md 3/C06',
 )
 
+CLAIMED['C02'] = (
+    'result-slot table agreement, flag-forwarding check over all call sites, literal-id flow (ECC/ORD packs), CFG dominance of the derivative guard (ast)',
+    'Decides the packaging and indexing of what the engine returns: (f,g,h,b) land in function/gradient/hessian/bhhh on the expression path and the likelihood path, '
+    'each gated by its own flag and scaled by one divisor; every named output is built from the same-named raw field with one name map; a flag handed over by '
+    'keyword or position lands in the same-named parameter at all 59 forwarding sites; the derivative call receives free_betas.indices.values() as literal ids, '
+    'free parameters are numbered first and records carry the unique index. Not decided: the derivative values themselves (engine arithmetic).',
+    'DESIGN.md 3/C02',
+)
+CLAIMED['C03'] = (
+    'canonical-order flow rule over the whole package (ORD pack), by-name update patterns, CFG must-pass/dominance for the duplicate-name gate (ast)',
+    'Decides that parameters are matched by name: every positional per-parameter vector (values, bounds, iteration-file lines, result rows, name/value zips) is built '
+    'over the sorted name list of the matching kind and never over the dictionary of expressions (order of appearance) - a generic rule applied to every comprehension '
+    'and loop of the package plus 12 site-specific pairings; dictionaries are turned into vectors name by name; Beta.change_init_values/fix_betas use the name of the '
+    'object they write; a duplicate name is refused before ids are handed out. Not decided: invariance of optimiser outcomes.',
+    'DESIGN.md 3/C03',
+)
+CLAIMED['C04'] = (
+    'engine-call contract (argument-role flow analysis against the engine API read off cythonbiogeme.pyx), scaling sibling check, paired-on-all-exits CFG rule (ast)',
+    'Decides the Python-side plumbing of the likelihood: all 31 arguments handed to the pyBiogeme object have the role the engine reads in that slot; the thread count '
+    'comes from the property mapping 0 to the CPU count; scaled values are the engine result divided by get_sample_size() with a zero guard; a resample handed to the '
+    'engine is replaced by the full data on every exit. Not decided: independence of row order, thread count, partition (loop lives in the engine).',
+    'DESIGN.md 3/C04',
+)
+CLAIMED['C07'] = (
+    'sign-flip sibling check, same-point flow check, bounds forwarding, write-back dominance, paired-on-all-exits rule (ast + statement CFG)',
+    'Decides: NegativeLikelihood returns minus the same-named fields of one unscaled likelihood; the vector returned by optimize is the one evaluated and reported, '
+    'with exactly that evaluation; bounds reach every backend that supports them in canonical order; estimates are written back to every formula by both estimation '
+    'entry points and a given value (also 0.0) is always written; the engine holds the estimation data again on return. Not decided: optimality and convergence.',
+    'DESIGN.md 3/C07',
+)
+
 NOT_APPLICABLE = {f'C{i:02d}': WIP for i in range(1, 20)}
